@@ -128,12 +128,15 @@ std::vector<TecmpPayloadPtr> TECMP::Decoder::GetInterfacePayload(const uint8_t* 
     if (header.getMessageType() != CmpHeader::MessageType::busStatus)
         return payloads;
 
+    if (size < 12)
+        return payloads;
+
     // Get base values
     InterfacePayload payload;
     std::size_t busDataOffset = 12;
     payload.setGenericData(payloadData);
 
-    while (size - busDataOffset >= 12)
+    while (busDataOffset + 12 <= size)
     {
         auto tempPayload = payload;
         tempPayload.setBusData(payloadData + busDataOffset, 12);
